@@ -971,10 +971,11 @@ def r8_partial_io_counts(facts, rep):
 # goes on - the I/O failure is swallowed.  Rule: the result of a libc function that returns the error number is, by data flow
 # through closure returns / helper parameters, tested against 0 or handed to `io::Error::from_raw_os_error`; it is never
 # judged only by a comparison with -1, and never unused.
-ERRNO_RETURNING = (
-    "posix_fallocate", "posix_fallocate64", "posix_fadvise", "posix_fadvise64", "posix_madvise", "posix_memalign", "posix_spawn", "posix_spawnp",
-    "clock_nanosleep", "sigwait", "getlogin_r", "ttyname_r", "ptsname_r",
-)
+# calls whose failure is an I/O failure of the store (space could not be reserved): a misjudged result is a violation
+ERRNO_RETURNING_IO = ("posix_fallocate", "posix_fallocate64")
+# same convention, but advisory or unrelated to storage: a misjudged result is recorded as a note only
+ERRNO_RETURNING_OTHER = ("posix_fadvise", "posix_fadvise64", "posix_madvise", "posix_memalign", "posix_spawn", "posix_spawnp", "clock_nanosleep", "sigwait", "getlogin_r", "ttyname_r", "ptsname_r")
+ERRNO_RETURNING = ERRNO_RETURNING_IO + ERRNO_RETURNING_OTHER
 PTHREAD_NOT_ERRNO = ("pthread_self", "pthread_equal", "pthread_getspecific", "pthread_exit", "pthread_testcancel")
 MINUS_ONE = (-1, 0xFF, 0xFFFF, 0xFFFFFFFF, 0xFFFFFFFFFFFFFFFF)
 
@@ -1128,6 +1129,8 @@ def r9_errno_convention(facts, rep):
                 rep.ok("R9", short, "errno-returning|%s" % m, detail="the result of %s at %s is %s" % (m, t.get("ln"), " / ".join(sorted(tags))))
             elif tags & {"escaped", "other"} and "minus1" not in tags:
                 rep.notes.append("R9: the result of %s at %s leaves the analysed flow (%s); not decided" % (m, t.get("ln"), ", ".join(sorted(tags))))
+            elif m not in ERRNO_RETURNING_IO:
+                rep.notes.append("R9: the result of %s at %s (%s) is not tested the way the function reports errors; advisory / not a storage operation, not a violation of this property" % (m, t.get("ln"), ", ".join(sorted(tags)) or "unused"))
             else:
                 why = "is judged only by a comparison with -1 (the cvt / cvt_r convention)" if "minus1" in tags else "is never tested"
                 rep.violation("R9", short, "errno-returning|%s" % m, "`%s` at %s returns the error NUMBER (never -1), but its result %s: every failure of the call reads as success - an I/O failure is swallowed and the commit goes on" % (m, t.get("ln"), why), site=t.get("ln"))
